@@ -348,7 +348,7 @@ func (fr *Frame) mapRangeSafe(li *loopInfo, mt *types.Map) (bool, string) {
 				}
 				if spec := eng.contracts.Funcs[key]; spec != nil && (spec.HasMod || spec.Trusted || spec.Assume) {
 					for _, m := range spec.Modifies {
-						if m.All || m.Contents {
+						if m.All || (m.Contents && !m.DelOnly) { // m[-] (ext_c24.go): the callee only deletes entries
 							return false, "call to " + key + " (modifies " + m.Text + ")"
 						}
 					}
@@ -494,11 +494,25 @@ func (e *SpecEnv) visitedBuiltin(x *ECall) SV {
 	if fr == nil || fr.curVisLoop == nil {
 		e.fail("visited(k) is only meaningful in an invariant of a map range loop")
 	}
-	_, r, mt := loopMapRange(fr.curVisLoop)
+	vli := fr.curVisLoop
+	if _, r0, _ := loopMapRange(vli); r0 == nil {
+		// a loop nested in a map range loop: visited(k) is the visited set of the innermost enclosing map range. Its `next` runs
+		// in the enclosing header, so inside the body (and in the nested loop) the key being processed is already in the set.
+		var best *loopInfo
+		for _, o := range fr.loops {
+			if _, ro, _ := loopMapRange(o); o != vli && ro != nil && o.body[vli.header] && (best == nil || len(o.body) < len(best.body)) {
+				best = o
+			}
+		}
+		if best != nil {
+			vli = best
+		}
+	}
+	_, r, mt := loopMapRange(vli)
 	if r == nil {
 		e.fail("visited(k): loop %d does not range over a map", fr.curVisLoop.ordinal)
 	}
-	if ok, why := fr.mapRangeSafe(fr.curVisLoop, mt); !ok {
+	if ok, why := fr.mapRangeSafe(vli, mt); !ok {
 		e.fail("visited(k): the visited-set model is switched off for this loop (%s)", why)
 	}
 	if len(x.Args) != 1 {
